@@ -49,6 +49,10 @@ def thorough_common(ctx):
 PROPS = {}
 
 PROPS["C14"] = dict(
+    claim=dict(
+        text="Machine-checked proof (Coq 8.16): the implementation-shaped cache model (recency list of nodes with identities + hash index, transcribed from route_cache.go) refines, for every capacity and every history of Set/Get/Has/Delete/Len, the abstract LRU recency list truncated to its capacity (C14_refines_spec, by an index/list consistency invariant); the clauses of the property (bound, no duplicates, MRU after set/get, exact LRU eviction, replace, delete-only) are theorems about that list. Tie to the code: on every run the extracted model and rux.NewCachedRoutes / a caching router are run on the same generated histories and compared op by op (results and key order through a verif-tag accessor).",
+        note="Trusted: Coq kernel, ExtrOcamlBasic extraction, OCaml driver, Go harness; container/list, Go map and RWMutex are modelled (operations atomic), not verified. The correspondence is differential testing bounded by its generator.",
+        technique="Coq proof: refinement of node-list+index cache to an LRU recency list by invariant, for all histories; extracted model vs implementation differential check"),
     n=dict(quick=3000, thorough=60000),
     consts=[],
     theorems=["C14_refines_spec", "C14_bound_nodup", "C14_set_mru", "C14_get_mru", "C14_evict_lru", "C14_replace", "C14_delete_only"],
@@ -61,6 +65,10 @@ PROPS["C14"] = dict(
 )
 
 PROPS["C11"] = dict(
+    claim=dict(
+        text="Machine-checked proof (Coq 8.16): formatPath (transcribed with its index accesses as explicit panic outcomes) equals, for every string and both StrictLastSlash settings, '/' ++ core(s) (C11_normal_form) - hence it is total (C11_total), registration through simpleFmtPath and group prefixes normalises exactly like lookup (C11_reg_lookup, C11_registered_path for every nesting of prefixes), two spellings reach the same key iff they have the same core (C11_classes, C11_reach) and the normal form has the documented shape (C11_shape). Tie to the code: extracted model and closed-form spec are compared with Route.Path(), Router.Match and ServeHTTP (decoded and escaped path) on generated and, in the thorough tier, exhaustively enumerated short strings.",
+        note="Trusted: Coq kernel, extraction, driver, harness; strings.TrimSpace/TrimLeft/TrimRight are modelled on code points (unicode.IsSpace set transcribed), URL decoding is net/url's (an input to the model).",
+        technique="Coq proof: closed-form characterisation of the normaliser for all strings; extracted model vs implementation differential check"),
     n=dict(quick=6000, thorough=100000),
     consts=[],
     theorems=["C11_total", "C11_normal_form", "C11_reg_lookup", "C11_registered_path", "C11_classes", "C11_reach", "C11_shape", "C11_strict_distinguishes"],
@@ -74,6 +82,10 @@ PROPS["C11"] = dict(
 )
 
 PROPS["C08"] = dict(
+    claim=dict(
+        text="Machine-checked proof (Coq 8.16): for every sequence of writer operations (status settings incl. non-positive codes, header settings, writes under any short-write script of the underlying writer, flushes, http.Error/Redirect helpers, snapshots) followed by the dispatcher's final commit, the model of responseWriter emits exactly WH(spec_status) followed by the accepted bytes and flushes in order (C08_log, C08_one_commit), spec_status is the last positive status up to the first committing op (C08_status), Length ends as the accepted byte count, and an empty chain still commits once with 200 (C08_empty). Tie to the code: the extracted model and spec are compared with the call log of a recording ResponseWriter+Flusher driven through Router.ServeHTTP with the ops spread over a middleware chain.",
+        note="Trusted: Coq kernel, extraction, driver, harness; net/http's http.Error / http.Redirect are modelled by their WriteHeader/Write calls; headers are outside this property's projection; panicking chains are C09.",
+        technique="Coq proof: induction over operation sequences with committed/uncommitted invariant; extracted model vs implementation differential check"),
     n=dict(quick=4000, thorough=60000),
     consts=[],
     theorems=["C08_log", "C08_one_commit", "C08_status", "C08_empty"],
